@@ -51,7 +51,11 @@ class Sub(object):
     """One executable sub-property."""
 
     def __init__(self, name, strategy, oracle, quick=100, thorough=1000, shrink=True,
-                 quick_shards=None, weight=1):
+                 quick_shards=None, weight=1, enumerate_cases=None, use_target=False):
+        self.use_target = use_target
+        # enumerate_cases(tier, seed) -> list of cases: a finite part of the domain that is enumerated
+        # (round-robin over the shards) instead of drawn; `strategy` may then be None.
+        self.enumerate_cases = enumerate_cases
         self.name = name
         self.strategy = strategy
         self.oracle = oracle
@@ -301,11 +305,30 @@ def run_shard(mod, tier, seed, shard, nshards, budget_s, only=None):
     for sub in mod.SUBS:
         if only and sub.name not in only:
             continue
+        if sub.enumerate_cases is not None:
+            cases = sub.enumerate_cases(tier, seed)
+            try:
+                for case in cases[shard::nshards]:
+                    col.run_case(sub, case)
+            except Violation as v:
+                path = write_violation(mod.PROPERTY_ID, sub.name, v)
+                rec = v.to_json()
+                rec.update({'sub': sub.name, 'replay': path})
+                col.violations.append(rec)
+            except BaseException as e:
+                if isinstance(e, KeyboardInterrupt):
+                    raise
+                col.harness_errors.append({'sub': sub.name, 'error': '%s: %s' % (type(e).__name__, str(e)[:500]),
+                                           'traceback': traceback.format_exc()[-3000:]})
+            if sub.strategy is None:
+                continue
         total = sub.quick if tier == 'quick' else sub.thorough
         n = int(math.ceil(total / float(nshards)))
         if n <= 0:
             continue
-        phases = [Phase.generate, Phase.target]
+        phases = [Phase.generate]
+        if sub.use_target:
+            phases.append(Phase.target)
         if sub.shrink:
             phases.append(Phase.shrink)
         st = settings(
